@@ -5,7 +5,7 @@
    No Extract Constant / Extract Inductive of our own. *)
 Require Extraction.
 Require Import ExtrOcamlBasic.
-From Otter Require Import Base Sketch Seq Spec Policy Wheel Maint Ring Mpsc HashMap Load.
+From Otter Require Import Base Sketch Seq Spec Policy Wheel Maint Ring Mpsc HashMap Load Drain DrainMacro.
 (* run with cwd = /verif/ocaml: the extracted files land in the current directory *)
 Extraction "model.ml"
   Base.wrapu Base.wraps Base.satadd Base.abs64
@@ -23,4 +23,6 @@ Extraction "model.ml"
   Mpsc.pidx Mpsc.cidx Mpsc.plimit Mpsc.pmask Mpsc.cmask Mpsc.pbuf Mpsc.cbuf Mpsc.buf_len
   HashMap.hmap_new HashMap.hmap_get HashMap.hmap_compute HashMap.hmap_range HashMap.hmap_clear HashMap.hmap_layout HashMap.hsize HashMap.hgen HashMap.htlen
   HashMap.h1 HashMap.h2 HashMap.broadcast HashMap.markZeroBytes HashMap.firstMarkedByteIndex HashMap.setByte
-  Load.lstate0 Load.lstep Load.lmap Load.ltable Load.alookup Load.in_flight.
+  Load.lstate0 Load.lstep Load.lmap Load.ltable Load.alookup Load.in_flight
+  Drain.dstep Drain.ds_of Drain.lock_of Drain.wb_of Drain.ths_of Drain.all_done Drain.terminal Drain.drained
+  DrainMacro.macro_step DrainMacro.add_thread DrainMacro.enabled DrainMacro.dstate0 DrainMacro.pc_at.
